@@ -428,44 +428,53 @@ section EndToEnd
 open PdshVerif.Hostlist PdshVerif.Opt.Targets
 
 /-- TARGET LIST, END TO END.  The command line is a list of segments in the order `wcoll_arg_process` sees
-them: `-w` words (plain or bracketed), `^file` (its expressions, includes inlined, standing where the file
-stands), `-x` words, `-^file` / `-x ^file`, the regex words (`/re/`, and the same behind a dash); `wenv` = WCOLL.  In the domain
-`targetDomain` (ONE decidable predicate: the conjunction of the domains of C01's `create_word` /
-`wcollExpand_words`, C02's `exclusion_correct` and C10's `file_source_spec_partial`), with D1, D17, D19
-repaired, the composition of
+them: `-w` words (plain, one or TWO pairs of brackets), `^file` (its expressions, includes inlined, standing
+where the file stands), `-x` words, the exclusion files (`-x ^file`, dash `^file`), the regex words (`/re/`, and
+the same behind a dash); `wenv` = WCOLL.  In the domain `targetDomain` (ONE decidable predicate: the conjunction
+of the domains of C01's `create_word` / `wcoll_expand₂`, C02's `exclusion_correct` and C10's
+`file_source_spec_partial`), with D1, D17, D19 and F02-2BR repaired (the order of /repo: `wcoll_expand` before
+the exclusions and filters), the composition of
   * C10's reader (`readWcoll`, which fills the file table `Env.files` of C02's model — `envOf`) and the
-    WCOLL step of `opt_args` (consulted iff no target segment — `targetList`),
+    WCOLL step of `opt_args` (consulted iff no target segment — `targetList`, C02's `cliFinalW` on words),
   * C02's `wcoll_arg_process`, `wcoll_apply_excluded`, `wcoll_apply_regex` (`Exclude.argsProcess`, `finish`),
-  * C01's `hostlist_create` and the re-expansion `wcoll_expand`
-yields exactly `targetSpec`: the expansion (C01's `expand₂`) of every target word in source order, the files'
-words inlined (`WcollSpec.fileHosts`, the property-level reading with includes), minus every excluded name,
-filtered by every regex. -/
+  * C01's `hostlist_create` and the re-expansion `wcoll_expand` (`wcoll_expand₂`, applied as it stands)
+yields exactly: the expansion (C01's `expand₂`) of every target word in source order, the files' words inlined
+(`WcollSpec.fileHosts`, the property-level reading with includes), minus every excluded name, filtered by every
+regex. -/
 theorem target_list_end_to_end (cfg : Cfg) (hD1 : cfg.fixDeleteAll = true) (hD17 : cfg.fixIterSuffix = true)
-    (hD19 : cfg.fixRemoveDepth = true) (mode : LineMode) (fs : FS) (rematch : List Char → List Char → Option Bool)
+    (hD19 : cfg.fixRemoveDepth = true) (h2Br : cfg.fix2Br = true) (mode : LineMode) (fs : FS)
+    (rematch : List Char → List Char → Option Bool)
     (badre : List Char → Bool) (segs : List Seg) (wenv : Option (List Char × List Spec.Word))
     (hdom : targetDomain cfg mode fs rematch badre segs wenv = true) :
     targetList cfg (envOf mode fs rematch badre segs wenv) (wenv.map (·.1)) (segs.map Seg.text) =
-      .ok (((((tgtWords segs wenv).flatMap Spec.Word.expand₂).filter
+      .ok ((((Spec.expand₂ (tgtWords segs wenv)).filter
               fun h => !(segs.flatMap Seg.xnames).contains h).filter
             (Exclude.keepAll (envOf mode fs rematch badre segs wenv) (segs.flatMap Seg.reg)))) :=
-  targetList_correct cfg hD1 hD17 hD19 mode fs rematch badre segs wenv hdom
+  targetList_correct cfg hD1 hD17 hD19 h2Br mode fs rematch badre segs wenv hdom
 
 /-- without WCOLL the composed function IS C02's `cliWords` (the function `exclusion_correct` speaks about) -/
 theorem target_list_is_cliWords (cfg : Cfg) (env : Exclude.Env) (words : List (List Char)) :
     targetList cfg env none words = Exclude.cliWords cfg env words :=
   targetList_no_env cfg env words
 
+/-- with WCOLL it IS C02's `cliFinalW` on the words of the options -/
+theorem target_list_is_cliFinalW (cfg : Cfg) (env : Exclude.Env) (wcollEnv : Option (List Char))
+    (evs : List Exclude.Ev) :
+    Exclude.cliFinalW cfg env wcollEnv evs = targetList cfg env wcollEnv (evs.flatMap Exclude.evWords) := rfl
+
 /-- a site: `d/all` names a rack and includes `d/more`; `d/down` (hosts out of service) includes `d/more` too -/
 def siteFS : FS :=
   [⟨"d/all".toList, true, "n[1-3]\n#include more\n".toList⟩,
    ⟨"d/more".toList, true, "m7 # spare\n".toList⟩,
-   ⟨"d/down".toList, true, "#include more\nn2\n".toList⟩]
+   ⟨"d/down".toList, true, "#include more\nr1n2\n".toList⟩]
 
-/-- `pdsh -w ^d/all,w1 -x ^d/down -w WORD`, WORD = dash slash 3 slash (drop the names matching 3) -/
+/-- `pdsh -w ^d/all,r[1-2]n[1-2] -x ^d/down -w WORD`, WORD = dash slash 3 slash (drop the names matching 3):
+    a file with an include, a word with TWO pairs of brackets, an exclusion file with the same include -/
 def siteSegs : List Seg :=
   [.tfile "d/all".toList [.br "n".toList [⟨"1".toList, some "3".toList⟩] [] none, .plain "m7".toList],
-   .cw (.tgt (.plain "w1".toList)),
-   .xfile "d/down".toList [.plain "m7".toList, .plain "n2".toList],
+   .cw (.tgt (.br "r".toList [⟨"1".toList, some "2".toList⟩] "n".toList
+     (some ([⟨"1".toList, some "2".toList⟩], [])))),
+   .xfile "d/down".toList [.plain "m7".toList, .plain "r1n2".toList],
    .cw (.re true "3".toList)]
 
 def siteMatch : List Char → List Char → Option Bool := fun p h => if p = "3".toList then some (h.contains '3') else none
@@ -473,11 +482,12 @@ def siteMatch : List Char → List Char → Option Bool := fun p h => if p = "3"
 /-- the domain is inhabited by a command line with an include file and an exclusion file (decided) -/
 example : targetDomain Cfg.repaired .whole siteFS siteMatch (fun _ => false) siteSegs none = true := by decide
 
-/-- ... and through the theorem: n[1-3] and m7 from the file, w1; m7 and n2 excluded by the exclusion file,
-    n3 dropped by the regex -/
+/-- ... and through the theorem: n[1-3] and m7 from the file, r[1-2]n[1-2]; m7 and r1n2 excluded by the exclusion
+    file, n3 dropped by the regex -/
 example : targetList Cfg.repaired (envOf .whole siteFS siteMatch (fun _ => false) siteSegs none) none
-    (siteSegs.map Seg.text) = .ok ["n1".toList, "w1".toList] := by
-  have h := target_list_end_to_end Cfg.repaired rfl rfl rfl .whole siteFS siteMatch (fun _ => false) siteSegs none
+    (siteSegs.map Seg.text) =
+    .ok ["n1".toList, "n2".toList, "r1n1".toList, "r2n1".toList, "r2n2".toList] := by
+  have h := target_list_end_to_end Cfg.repaired rfl rfl rfl rfl .whole siteFS siteMatch (fun _ => false) siteSegs none
     (by decide)
   rw [show (none : Option (List Char × List Spec.Word)).map (·.1) = none from rfl] at h
   rw [h]
@@ -533,7 +543,7 @@ example : targetList Cfg.repaired (envOf .whole [] (fun _ _ => none) (fun _ => f
       [.cw (.tgt (.plain "n1".toList)), .cw (.tgt (.plain "n2".toList)),
        .cw (.xcl (.br "n".toList [⟨"1".toList, some "2".toList⟩] [] none))] none) none
     ["n1".toList, "n2".toList, "-n[1-2]".toList] = .ok [] := by
-  have h := target_list_end_to_end Cfg.repaired rfl rfl rfl .whole [] (fun _ _ => none) (fun _ => false)
+  have h := target_list_end_to_end Cfg.repaired rfl rfl rfl rfl .whole [] (fun _ _ => none) (fun _ => false)
     [.cw (.tgt (.plain "n1".toList)), .cw (.tgt (.plain "n2".toList)),
      .cw (.xcl (.br "n".toList [⟨"1".toList, some "2".toList⟩] [] none))] none (by decide)
   rw [show (none : Option (List Char × List Spec.Word)).map (·.1) = none from rfl] at h
